@@ -3,14 +3,14 @@ CONSTANTS
   Times = {0, 1}
   Prices = {1, 2}
   Qtys = {1, 2, 3}
-  BalInit = {0, 300, 600}
+  BalInit = {600}
   FeePcts = {0, 50}
-  Lats = {2, 3}
-  Sinces = {0, 1, 2, 3}
+  Lats = {2}
+  Sinces = {1, 2}
   OpenCids = {"o1"}
   MaxTrades = 2
-  ClockSlack = FALSE
-  IdSlack = 0
+  ClockSlack = TRUE
+  IdSlack = 1
 INVARIANT Inv
 PROPERTIES AcceptIff ExactDebit RejectPure FreshIdsStep OneFill Notif11 QueriesReflect ConfigFixed Clock
 VIEW View
